@@ -519,7 +519,9 @@ scan:
 					if ch == closer {
 						opened--
 						if opened == 0 {
-							ret = append(ret, seg.WithStop(seg.Start+i))
+							// the closing segment stops at the SOURCE offset of the closer: `i` indexes the view, which begins with
+							// seg.Padding virtual spaces (repair 9e57c92; before it real code and this cursor both said Start+i)
+							ret = append(ret, seg.WithStop(seg.Start+i-seg.Padding))
 							c.advance(i + 1)
 							closed = true
 							break scan
